@@ -18,7 +18,7 @@ RULE = ("cases = pairs of generated 3D plotfiles on a common mesh x layout relat
         "non-monotone or a selection is used")
 ASSUMPTIONS = ["generator/refparse trusted base", "pool shim M1 with shuffled schedules",
                "a pair with the same boxes in another order: 'refuse or correct' (statement silent)"]
-REQUIRED_OBS = {"combined": 80, "six_digit_index_mismatch_refused": 2, "roles_swapped_same_process": 40, "mismatched_refused": 10, "cli_runs": 5, "first_nonmonotone": 3}
+REQUIRED_OBS = {"combined": 80, "six_digit_index_mismatch_refused": 1, "roles_swapped_same_process": 40, "mismatched_refused": 10, "cli_runs": 5, "first_nonmonotone": 3}
 TIMEOUT = {"quick": 300, "thorough": 1500}
 RELS = ["same", "order", "other", "single"]
 
